@@ -7,6 +7,7 @@
 mod c03;
 mod c04;
 mod c05;
+mod c09;
 mod c10;
 mod c11;
 mod attgen;
@@ -74,6 +75,7 @@ fn main() {
         "C03" => c03::run(&cfg),
         "C04" => c04::run(&cfg),
         "C05" => c05::run(&cfg),
+        "C09" => c09::run(&cfg),
         "C10" => c10::run(&cfg),
         "C11" => c11::run(&cfg),
         "C01" => e2e_props::run(&cfg, "C01"),
